@@ -20,6 +20,7 @@ static const struct { const char * p; size_t n; } msgs[] = {
     MSG("IB 7,#15a\n;b\n\n"),                       /* block with embedded NL and ; as SECOND parameter */
     MSG("BLK #16\x01\x00\x02\x00\n\x00\n"),     /* NUL bytes (and a NL) inside a block */
     MSG("ZZ:YX 5\r\n"),                           /* undefined header terminated by CR LF: its text must not depend on where the CR LF is cut */
+    MSG("Z\n"),                                   /* a message of one byte: its terminator may arrive alone while a single byte is pending */
     MSG("TXT 'abc'\n"), MSG("TXT 'ab\n"),        /* single-quoted string, and one whose closing quote is missing */
 };
 #define NMSG ((int) (sizeof msgs / sizeof msgs[0]))
